@@ -202,6 +202,18 @@ impl Profile for StoredHandles {
             }
         }
         cells.hit(format!("c20.schema_names_checked|{}", names.len()));
+        // ... and one schema that contains handles of all parameterisations has one definition for them
+        static DEFS: std::sync::OnceLock<Vec<String>> = std::sync::OnceLock::new();
+        let defs = DEFS.get_or_init(|| {
+            let mut gen = sylvia::schemars::gen::SchemaGenerator::default();
+            for (_, f) in rt::registry::all() {
+                (f.schema_register)(&mut gen);
+            }
+            gen.definitions().keys().filter(|k| k.contains("Remote")).cloned().collect()
+        });
+        if defs.len() != 1 || defs[0] != "Remote" {
+            out.push(Finding::new("C20", "c20.schema_defs", 0, format!("a schema holding handles of {} parameterisations defines {:?} instead of one `Remote`", names.len(), defs)));
+        }
         out
     }
 }
